@@ -55,6 +55,7 @@ SideName(et, e) == IF et = "line" THEN (IF e = "f" THEN "from" ELSE "to") ELSE (
 SlotRec(x) == IF IsBusSlot(x) THEN [mt |-> SlotMt(x), et |-> "bus", el |-> SlotBus(x), side |-> "none"]
               ELSE [mt |-> SlotMt(x), et |-> Branch[SlotBr(x)].et, el |-> Branch[SlotBr(x)].el,
                     side |-> SideName(Branch[SlotBr(x)].et, SlotEnd(x))]
+RecOf == [x \in AllSlots |-> SlotRec(x)]                \* constant table: evaluated once by TLC
 
 \* ---- abstract structure of a measurement set -------------------------------------------------------------------
 \* core = [v, inj : Seq(BOOLEAN) indexed bus+1,  fl : Seq over BrId of "none" | "f" | "t" | "ft"]:
@@ -64,7 +65,7 @@ CoreSlots(c) == {BusSlot("v", b) : b \in {x \in Bus : c.v[x + 1]}}
            \cup {BusSlot(mt, b) : mt \in {"p", "q"}, b \in {x \in Bus : c.inj[x + 1]}}
            \cup UNION {{BrSlot(mt, k, e) : mt \in {"p", "q"}, e \in FlEnds(c.fl[k])} : k \in BrId}
 \* redundancy classes: measurements ADDED to an observable core
-RedClasses == {"none", "v_all", "p_inj", "q_inj", "pq_from", "pq_to", "p_from_q_to", "i_from", "i_to", "all"}
+RedClasses == {"none", "v_all", "p_inj", "q_inj", "pq_from", "pq_to", "p_from_q_to", "i_from", "i_to", "all_but_i", "all"}
 RedSlots(r) == CASE r = "none" -> {}
                  [] r = "v_all" -> {BusSlot("v", b) : b \in Bus}
                  [] r = "p_inj" -> {BusSlot("p", b) : b \in Bus}          \* p without q: unequal P / Q row masks (matrix_base.py:296)
@@ -74,6 +75,7 @@ RedSlots(r) == CASE r = "none" -> {}
                  [] r = "p_from_q_to" -> {BrSlot("p", k, "f") : k \in BrId} \cup {BrSlot("q", k, "t") : k \in BrId}
                  [] r = "i_from" -> {BrSlot("i", k, "f") : k \in BrId}    \* current magnitudes: never needed for observability
                  [] r = "i_to" -> {BrSlot("i", k, "t") : k \in BrId}
+                 [] r = "all_but_i" -> {x \in AllSlots : SlotMt(x) # "i"}
                  [] r = "all" -> AllSlots
 \* state of the model: s = [core, red, dup, ord]
 Meas(s) == CoreSlots(s.core) \cup RedSlots(s.red)
@@ -96,8 +98,7 @@ Permute(q, o) == CASE o = "created" -> q
 Table(s) == Bind(Meas(s), LAMBDA m : Bind(Created(m, s.dup), LAMBDA q : Permute(q, s.ord)))
 TableSlots(tab) == {tab[n].slot : n \in DOMAIN tab}
 \* the rows as create_measurement arguments (what the harness executes, in this order)
-Rows(tab) == [n \in DOMAIN tab |-> [mt |-> SlotRec(tab[n].slot).mt, et |-> SlotRec(tab[n].slot).et, el |-> SlotRec(tab[n].slot).el,
-                                    side |-> SlotRec(tab[n].slot).side, dup |-> tab[n].dup]]
+Rows(tab) == [n \in DOMAIN tab |-> Bind(RecOf[tab[n].slot], LAMBDA r : [mt |-> r.mt, et |-> r.et, el |-> r.el, side |-> r.side, dup |-> tab[n].dup])]
 
 \* ---- the code's aggregation of the table into z (decision functions transcribed from ppc_conversion.py) ------------
 \* value column group a row is written to: BUS_MEAS_PPCI_IX / BR_MEAS_PPCI_IX (:43-54); side_map from->f, to->t (:219), hv->f, lv->t (:249)
@@ -109,24 +110,25 @@ Group(x) == LET r == SlotRec(x) IN
 PpcIdx(x) == LET r == SlotRec(x) IN
              IF r.et = "bus" THEN r.el ELSE (CHOOSE k \in BrId : Branch[k].et = r.et /\ Branch[k].el = r.el) - 1
 Cell(x) == <<Group(x), PpcIdx(x)>>
-Cells(tab) == {Cell(tab[n].slot) : n \in DOMAIN tab}
-RowsOf(tab, c) == {n \in DOMAIN tab : Cell(tab[n].slot) = c}
-\* index remembered for a cell: drop_duplicates(keep="first") (:141-146, :327-328, :347-348)
-FirstRow(tab, c) == Bind(RowsOf(tab, c), LAMBDA R : CHOOSE n \in R : \A m \in R : n <= m)
-\* merged weight (:89-102): 1/var_merged = SUM 1/var_row; with var_row = var or 4 var:  4 var / var_merged = SUM (4 | 1)
-RECURSIVE SumW(_, _)
-SumW(tab, R) == IF R = {} THEN 0 ELSE LET n == CHOOSE x \in R : TRUE IN (IF tab[n].dup THEN 1 ELSE 4) + SumW(tab, R \ {n})
-W4(tab, c) == SumW(tab, RowsOf(tab, c))
 \* z = bus P, bus Q, P from, Q from, P to, Q to, Vm, Va, Im from, Im to; boolean-mask selection = ascending ppci index (:566-590)
 ZGroups == <<"pbus", "qbus", "pfrom", "qfrom", "pto", "qto", "vm", "va", "ifrom", "ito">>
 GroupNo(g) == CHOOSE n \in DOMAIN ZGroups : ZGroups[n] = g
-CellKey(c) == 10 * GroupNo(c[1]) + c[2]                                     \* ppci indices of the templates are < 10
-ZLayout(tab) == Bind(Asc({CellKey(c) : c \in Cells(tab)}, 10, 10 * Len(ZGroups) + 9), LAMBDA ks :
-                     [n \in DOMAIN ks |-> <<ZGroups[ks[n] \div 10], ks[n] % 10>>])
-ZIdx(tab) == Bind(ZLayout(tab), LAMBDA z : [k \in DOMAIN z |-> FirstRow(tab, z[k]) - 1])    \* = eppci.pp_meas_indices (pandas index)
-ZW4(tab) == Bind(ZLayout(tab), LAMBDA z : [k \in DOMAIN z |-> W4(tab, z[k])])                \* = 4 sigma_row^2 / r_cov^2
+CellKey(c) == 10 * GroupNo(c[1]) + c[2]                  \* position of a cell in z (ppci indices of the templates are < 10)
+KeyOf == [x \in AllSlots |-> CellKey(Cell(x))]           \* constant table
+Keys(tab) == {KeyOf[tab[n].slot] : n \in DOMAIN tab}
+RowsOf(tab, k) == {n \in DOMAIN tab : KeyOf[tab[n].slot] = k}
+\* index remembered for a cell: drop_duplicates(keep="first") (:141-146, :327-328, :347-348)
+FirstRow(tab, k) == Bind(RowsOf(tab, k), LAMBDA R : CHOOSE n \in R : \A m \in R : n <= m)
+\* merged weight (:89-102): 1/var_merged = SUM 1/var_row; with var_row = var or 4 var:  4 var / var_merged = SUM (4 | 1)
+RECURSIVE SumW(_, _)
+SumW(tab, R) == IF R = {} THEN 0 ELSE LET n == CHOOSE x \in R : TRUE IN (IF tab[n].dup THEN 1 ELSE 4) + SumW(tab, R \ {n})
+W4(tab, k) == SumW(tab, RowsOf(tab, k))
+ZKeys(tab) == Asc(Keys(tab), 10, 10 * Len(ZGroups) + 9)
+ZLayout(tab) == Bind(ZKeys(tab), LAMBDA ks : [n \in DOMAIN ks |-> <<ZGroups[ks[n] \div 10], ks[n] % 10>>])   \* cells in z order
+ZIdx(tab) == Bind(ZKeys(tab), LAMBDA ks : [n \in DOMAIN ks |-> FirstRow(tab, ks[n]) - 1])    \* = eppci.pp_meas_indices (pandas index)
+ZW4(tab) == Bind(ZKeys(tab), LAMBDA ks : [n \in DOMAIN ks |-> W4(tab, ks[n])])                \* = 4 sigma_row^2 / r_cov^2
 \* check_observability (algorithm/base.py:36-43): UserWarning unless len(z) >= 2 n_bus - n_slack
-CountOK(tab) == Len(ZLayout(tab)) >= NState
+CountOK(tab) == Cardinality(Keys(tab)) >= NState
 \* degrees of freedom of the chi^2 test: m counts the ROWS of net.measurement (state_estimation.py:320-326)
 Chi2Df(tab) == Len(tab) - NState
 
